@@ -14,6 +14,8 @@ mod impl_send;
 #[cfg_attr(doc_cfg, doc(cfg(feature = "serde")))]
 mod impl_serde;
 mod impl_sync;
+#[cfg(brood_verif)]
+mod verif;
 
 pub use entry::Entry;
 
